@@ -525,4 +525,24 @@ Section Round14.
     - etransitivity; [apply accept_tagged_faulty|exact Hf].
     - exact Hh.
   Qed.
+
+  (* once the outcome's channel set equals the target the correct nodes hold, it stays equal, whatever faulty senders vote *)
+  Theorem llo_stays_at_target ss prev next target :
+    bok prev_bytes -> lsenders_ok ss -> 1 < seq ->
+    decode_outcome (c_pver cf) prev_bytes = Ok prev -> o_stage prev = Production -> verify_defs codec_ok target = true ->
+    (forall i rms ups vals, In (LCorrect i rms ups vals) ss -> oi_expected i = target) ->
+    (length (List.filter (fun p : option observation * bool => negb (snd p)) (tagged ss)) <= c_f cf)%nat ->
+    (c_f cf < length (List.filter (fun p : observation * bool => snd p) (accept_tagged false (tagged ss))))%nat ->
+    o_defs prev = target -> (size target <= chan_cap)%nat ->
+    outcome_step h cf seq prev (map fst (tagged ss)) = Ok next -> o_stage next <> Retired ->
+    o_defs next = target.
+  Proof.
+    intros Hb Hok Hseq Hd Hst Hv Htgt Hf Hh Heq Hcap Hstep Hnr. apply map_eq. intros k.
+    rewrite (llo_agreed_round ss prev next target Hb Hok Hseq Hd Hst Hv Htgt Hf Hh) by
+      (try assumption; rewrite Heq, union_idemp_L, size_dom; exact Hcap).
+    rewrite Heq.
+    destruct (bool_decide (k ∈ up_list target target)) eqn:E1; [reflexivity|].
+    destruct (bool_decide (k ∈ rm_votes target target)) eqn:E2; [|reflexivity].
+    apply bool_decide_eq_true, elem_of_firstn, rm_todo_spec in E2. destruct E2 as [_ Hn]. rewrite Hn. reflexivity.
+  Qed.
 End Round14.
